@@ -311,7 +311,7 @@ func verify(fatalf func(string, ...any), s scenario, up http.Header, upHost stri
 }
 
 func TestC08Direct(t *testing.T) {
-	hx.Check(t, hx.Scale(20000, 1000000), func(t *rapid.T) {
+	hx.Check(t, hx.Scale(80000, 1000000), func(t *rapid.T) {
 		s := genScenario(t)
 		opts := map[string]string{}
 		if s.hostOpt != "" {
@@ -430,7 +430,7 @@ func TestC08Loopback(t *testing.T) {
 	secure := httptest.NewTLSServer(handler)
 	defer secure.Close()
 
-	hx.Check(t, hx.Scale(300, 5000), func(t *rapid.T) {
+	hx.Check(t, hx.Scale(1000, 5000), func(t *rapid.T) {
 		s := genScenario(t)
 		s.peerIP = "127.0.0.1"
 		s.upgrade = rapid.SampledFrom([]string{"", "", "websocket", "Websocket", "WebSocket", "WEBSOCKET", "webSocket"}).Draw(t, "upgrade")
